@@ -221,9 +221,21 @@ class Driver:
             raise Infra("driver executable missing")
 
     def run(self, lines: list[str]) -> list[str]:
-        """lines without ids -> answers (ids added/stripped here)"""
+        """lines without ids -> answers (ids added/stripped here); large batches are split over several driver processes"""
         if not lines:
             return []
+        n = len(lines)
+        if n < 20000:
+            return self._run1(lines)
+        from concurrent.futures import ThreadPoolExecutor
+        procs = min(16, os.cpu_count() or 1)
+        size = (n + procs - 1) // procs
+        chunks = [lines[i:i + size] for i in range(0, n, size)]
+        with ThreadPoolExecutor(len(chunks)) as ex:
+            res = list(ex.map(self._run1, chunks))
+        return [x for c in res for x in c]
+
+    def _run1(self, lines: list[str]) -> list[str]:
         inp = "".join(f"c{i} {l}\n" for i, l in enumerate(lines))
         p = subprocess.run([DRIVER], input=inp, capture_output=True, text=True, timeout=3600)
         if p.returncode != 0:
